@@ -296,6 +296,13 @@ fn program_case(ctx: &mut Ctx, bytes: &[u8]) -> Vec<Violation> {
     ctx.class("program");
     guard("programs", "src", &src);
     match run_text(&src) {
+        // `capacity overflow` is how a request for more memory than can exist surfaces (excluded by the statement);
+        // it is only reachable here when the reference had lost track of the values before the repetition
+        Outcome::Panic(p) if p.msg.contains("capacity overflow") => {
+            ctx.excluded(1);
+            ctx.class("excluded:memory-request");
+            vec![]
+        }
         Outcome::Panic(p) => vec![Violation::new("programs", p.signature(), format!("{}\n--- program\n{}", p.describe(), src), json!({"src": src}))],
         _ => vec![],
     }
